@@ -100,6 +100,76 @@ def refixpoint_oracle(res, sysobj, summary, when):
     return True
 
 
+def exhaustive_digraphs(res, rng, tier, lim):
+    """EVERY digraph (self-loops included) on n leaves with the leaves instantiated in index order — relabelling makes this
+    every instantiation order of every netlist shape on n leaves: real sorter (stub leaves with arbitrary fan-in) vs the Lean
+    model (exact order / exception), plus the property's own verdict (accepted iff acyclic) and the pass count"""
+    import py4hw
+
+    class Stub(py4hw.Logic):
+        def __init__(self, parent, name, ins, out):
+            super().__init__(parent, name)
+            for k, w in enumerate(ins):
+                self.addIn(f'i{k}', w)
+            self.addOut('o', out)
+
+        def propagate(self):
+            pass
+
+    def cases():
+        for n in (1, 2, 3):
+            for m in range(1 << (n * n)):
+                yield n, m
+        if tier == 'quick':
+            for _ in range(1500):
+                yield 4, rng.randint(0, (1 << 16) - 1)
+            for _ in range(500):
+                yield 5, rng.randint(0, (1 << 25) - 1)
+        else:
+            for m in range(1 << 16):
+                yield 4, m
+            for _ in range(150000):
+                yield 5, rng.randint(0, (1 << 25) - 1)
+            for _ in range(30000):
+                yield 6, rng.randint(0, (1 << 36) - 1)
+    reqs, exp, meta = [], [], []
+    for n, m in cases():
+        adj = [[v for v in range(n) if (m >> (u * n + v)) & 1] for u in range(n)]     # u -> v : v reads u's output
+        hw = py4hw.HWSystem()
+        outs = [hw.wire(f'w{u}', 1) for u in range(n)]
+        for v in range(n):
+            Stub(hw, f's{v}', [outs[u] for u in range(n) if v in adj[u]], outs[v])
+        props, pid, succs = graph_of(hw)
+        exc = None
+        try:
+            sim = hw.getSimulator()
+        except Exception as e:
+            exc = str(e)
+        cyc = comb_cycle_lengths(succs)
+        if cyc is not None and not exc:
+            res.fail(f'netlist with a combinational cycle of length {cyc} was accepted and simulated',
+                     dict(n_leaves=n, edges=adj, cycle_length=cyc, depth=None, stub_leaves=True))
+        if cyc is None and exc:
+            res.fail(f'acyclic netlist refused: {exc}', dict(n_leaves=n, edges=adj, cycle_length=None, depth=longest_path(succs), stub_leaves=True))
+        reqs.append(f"sort | {lim} | {','.join(map(str, range(n)))} | " + ';'.join(','.join(map(str, s_)) for s_ in succs))
+        exp.append('E' if exc else ','.join(str(pid[id(o)]) for o in sim.propagatables))
+        meta.append((n, adj, cyc))
+        res.count(('digraph', n, m), hist={'exhaustive_digraph_n': n})
+    outs_ = run_driver('Drv/C04.lean', reqs)
+    worst = {}
+    for rq, a, e, (n, adj, cyc) in zip(reqs, outs_, exp, meta):
+        got = a.split('|')[0].strip()
+        if got != e:
+            res.disagree('sorter-exhaustive', dict(request=rq, lean=got, python=e))
+        if cyc is None and '|' in a:
+            worst[n] = max(worst.get(n, 0), int(a.split('|')[1]))
+    # the convergence conjecture: an acyclic netlist on n leaves never needs more than n passes (incl. the confirming one)
+    res.cov['max_passes_by_n_acyclic'] = worst
+    for n, p_ in worst.items():
+        if p_ > max(n, 1):
+            res.notes.append(f'convergence conjecture refuted at n={n}: {p_} passes')
+
+
 def late_additions(res, rng, n):
     """getSimulator() re-sorts on every call so that blocks added AFTER the simulator exists are scheduled: build the same
     plan in one go and in two phases (simulator created in between), also with containers that are empty in phase 1 and receive
@@ -266,6 +336,10 @@ def main(res, tier, rng, replay):
     except ToolFailure as e:
         res.broken.append(('correspondence', 'net-sim', str(e)[:300]))
     late_additions(res, rng.fork('late'), 60 if tier == 'quick' else 1200)
+    try:
+        exhaustive_digraphs(res, rng.fork('digraphs'), tier, lim)
+    except ToolFailure as e:
+        res.broken.append(('correspondence', 'sorter-exhaustive', str(e)[:300]))
     # sorter model vs implementation: exact order / exception
     try:
         outs = run_driver('Drv/C04.lean', reqs)
